@@ -274,6 +274,11 @@ class RealEngine:
         elif style == 'inferred':
             f = make_pypred(self.yp, rows, raise_at, yield_val, nparams=arity)
             self.yp.register_function(name, f)
+        elif style == 'partial':
+            # a callable that is not a plain function (functools.partial of a generator function)
+            import functools
+            f = functools.partial(make_pypred(self.yp, rows, raise_at, yield_val))
+            self.yp.register_function(name, f, arity=arity)
         elif style == 'inferred-default':
             # `def f(a1, .., an=None)`: a parameter with a default value is a parameter
             f = make_pypred(self.yp, rows, raise_at, yield_val, nparams=arity, default_last=True)
